@@ -5,7 +5,7 @@
 (* affine law); digit recodings are judged by the arithmetic statement     *)
 (* they must satisfy, not by comparing digits with a reference recoding.   *)
 (***************************************************************************)
-EXTENDS JCurve
+EXTENDS JCurve, PipCtl
 
 Two255 == Pow2(255)
 
@@ -88,11 +88,35 @@ MsmSum(g, pts, ks, i, n) ==
   ELSE GAdd(g, GMul(g, OfAffRec(pts[i]), ks[i]), MsmSum(g, pts, ks, i + 1, n))
 MinLen(a, b) == IF Len(a) < Len(b) THEN Len(a) ELSE Len(b)
 
+(***************************************************************************)
+(* White-box trace of the bucket method (recorder hook): the sequence of   *)
+(* recorded windows must be a run of the Pippenger machine at WORD = 64,   *)
+(* NW = 4: first window at bit 255 with no doublings; every next window    *)
+(* position and doubling count by PipCtl; the loop ends exactly at the      *)
+(* window containing bit 0; every recorded bucket index is "the bits of    *)
+(* that window" of the scalar; the highest non-empty bucket is their max.   *)
+(***************************************************************************)
+BWinDigit(k, c, b) == ToInt(LowBits(ShiftR(k, PcWinLo(c, b)), PcWidth(c, b)))
+MaxOf(s) == IF Len(s) = 0 THEN 0 ELSE CHOOSE m \in {s[i] : i \in 1..Len(s)} : \A i \in 1..Len(s) : s[i] <= m
+PipRunOK(iters, ks, n, c) ==
+  /\ Len(iters) >= 1
+  /\ iters[1][1] = 255 /\ iters[1][2] = 0
+  /\ PcLast(c, iters[Len(iters)][1])
+  /\ \A j \in 1..Len(iters) :
+        LET b == iters[j][1] IN
+        /\ (j < Len(iters) => /\ ~PcLast(c, b)
+                               /\ iters[j + 1][1] = PcNextBsi(c, b)
+                               /\ iters[j + 1][2] = PcNextNd(c, b))
+        /\ Len(iters[j][4]) = n
+        /\ \A i \in 1..n : iters[j][4][i] = BWinDigit(ks[i], c, b)
+        /\ iters[j][3] = MaxOf(iters[j][4])
+
 JudgeMsm(e) ==
   LET g == e.g  n == MinLen(e.points, e.scalars) IN
   /\ \A i \in 1..n : Lt(e.scalars[i], Two255)          \* the property's domain
   /\ GRep(g, e.out.r, MsmSum(g, e.points, e.scalars, 1, n))
   /\ (e.fn = "default" => e.out.window >= 1 /\ e.out.window <= 16)
+  /\ (e.fn = "pippenger_w" => PipRunOK(e.out.iters, e.scalars, n, e.window))
 
 (***************************************************************************)
 (* Large inputs: the points are entries of a table {[a]B : |a| <= 8} that  *)
